@@ -33,6 +33,7 @@ import Proofs.ResolverForks
 import Proofs.ResolverStaticCheck
 import Proofs.ResolverStaticMapCheck
 import Proofs.ResolverStaticMapGCheck
+import Proofs.ResolverStaticTreeCheck
 import Proofs.ResolverStaticExample
 
 namespace Props.C01
@@ -655,6 +656,73 @@ example :
     ((twoPhaseM exMapG exNm exMapGStore).2.find? fun i => i.key == ⟨["TOP", "IN", "WORK"], [("WORK", .i 1)]⟩).map
       (fun i => (i.args.field "p").matches (.obj [("a", .atom "2"), ("b", .atom "\"t\"")])) = some true := by
   decide
+
+/--
+PARTIAL (the refinement, with MAPPED PIPELINES and NESTED map calls).  Array-mode map calls of
+stages AND of pipelines, nested to any depth, every size known after resolution (`treeOkList`:
+decidable on the static phase; also: no call id repeats along a nesting chain).  The static
+phase is tree shaped (`staticProgramT`): below a mapped call the split inputs reach the callee's
+environment as `split` nodes (projected by `BindingPath`, filtered by `SplitExp.filter`, narrowed
+at run time), the call's outputs are the callee's outputs SPECIALISED to every fork (`pushFork`
+= `BindingPath` with a known fork index: references get the index, a `split` over the call
+selects its element statically; `pushFork_evalRT`: that is evaluation in that fork).  The
+run-time phase evaluates everything below mapped calls `c₁ … cₙ` in fork assignments that agree
+with den's fork list `[(c₁,i₁) … (cₙ,iₙ)]` (two or more roots; the value does not depend on which:
+`evalRT_congr`, the store reads an assignment through its lookups only).  Result: den's top-level
+outputs and den's stage instances — for every mapped call, for each index in order, everything
+below — each with its argument record.
+
+Still excluded: typed-map mode below mapped pipelines (map calls of STAGES in typed-map mode are
+in `resolver_refines_den_mapstatic_partial`), split sources of run-time size, a map call over the
+merged output of another map call (lockstep roots), `disabled`.
+-/
+theorem resolver_refines_den_mappedpipes_partial (P : Program) (nm : List String → String) (O : Oracle)
+    (ρ : Store) (hw : WellTypedT P) (hfix : NarrowFix P.table P.nfuel) (hext : StoreExt ρ)
+    (hρ : ∀ n ∈ flattenTList [] (staticProgramT P nm).2, StoreAtNode nm O ρ n)
+    (hok : treeOkList [] (staticProgramT P nm).2 = true) :
+    den P O = twoPhaseT P nm ρ :=
+  twoPhaseT_eq_den_F P hw P.nfuel hfix nm O ρ hext hρ hok
+
+/-- … with DECIDABLE hypotheses and the store built from the oracle and the call graph. -/
+theorem resolver_refines_den_mappedpipes_checked (P : Program) (nm : List String → String) (O : Oracle)
+    (h1 : wellTypedTB P = true) (h2 : acyclicB P.table = true)
+    (h3 : treeOkList [] (staticProgramT P nm).2 = true)
+    (h4 : ((flattenTList [] (staticProgramT P nm).2).map fun n => nm n.path).Nodup) :
+    den P O = twoPhaseT P nm (storeOfNodes nm (flattenTList [] (staticProgramT P nm).2) O) :=
+  twoPhaseT_eq_den_F P (wellTypedTB_sound P h1) P.nfuel (narrowFix_of_acyclicB P.table h2) nm O _
+    (storeOfNodes_ext nm _ O) (storeOfNodes_ok nm _ O h4) h3
+
+/-- Specialising a resolved expression to fork `k` of a mapped call (`BindingPath` with a known fork
+index) is evaluating it in that fork — for every store that reads fork assignments through their
+lookups — and keeps it well typed. -/
+theorem specialise_to_fork_sound (st : StructTable) (hst : StructsOk st) (F : Nat) (ρ : Store)
+    (hρ : StoreExt ρ) (c : String) (k : Nat) (e : RExp) (t : Ty) (f : ForkAssign) (h : HasTyR st t e) :
+    evalRT st F ρ f t (pushFork c (.i k) e) = evalRT st F ρ (fset f c (.i k)) t e ∧
+    HasTyR st t (pushFork c (.i k) e) :=
+  pushFork_evalRT st hst F ρ hρ c k e t f h
+
+/-- The run-time phase depends on a fork assignment only through its lookups (the order in which
+the roots were bound does not matter). -/
+theorem runtime_fork_assignment_ext (st : StructTable) (F : Nat) (ρ : Store) (hρ : StoreExt ρ)
+    (e : RExp) (t : Ty) (f g : ForkAssign) (h : FEq f g) :
+    evalRT st F ρ f t e = evalRT st F ρ g t e :=
+  evalRT_congr st F ρ hρ e t f g h
+
+/-- non-vacuity: a pipeline mapped over an array literal of length 3 with a nested map call of
+length 2 inside passes the checks … -/
+example : wellTypedTB exPipe = true ∧ acyclicB exPipe.table = true ∧
+    treeOkList [] (staticProgramT exPipe exNm).2 = true ∧
+    ((flattenTList [] (staticProgramT exPipe exNm).2).map fun n => exNm n.path).Nodup := by decide
+
+/-- … 1 + 3·(1 + 1 + 2) + 1 instances in den's order; the instance (outer 1, inner 0) of the nested
+call receives the outer split value `x = 5`, `k` from the sibling stage of ITS outer fork -/
+example :
+    (twoPhaseT exPipe exNm exPipeStore).2.length = 14 ∧
+    ((twoPhaseT exPipe exNm exPipeStore).2.find? fun i =>
+        i.key == ⟨["TOP", "INNER", "W2"], [("INNER", .i 1), ("W2", .i 0)]⟩).map
+      (fun i => i.args.matches (.obj [("x", .atom "5"), ("k", .atom "11")])) = some true := by decide
+
+example (nodes : List SNode) (O : Oracle) : StoreExt (storeOfNodes exNm nodes O) := storeOfNodes_ext _ _ _
 
 /-- non-vacuity: a map call of a stage over two array literals of length 3 (constants, a pipeline
 input, upstream outputs, a struct literal next to references that are narrowed WIDE → PAIR),
